@@ -34,6 +34,24 @@ pub enum Finish {
     Upgrade(Vec<u8>, RespSpec, Vec<WOp>),
 }
 
+/// one application read of up to `want` bytes into `buf[..want]`, through the plain or the
+/// vectored entry point of the reader (same read either way: odd sizes go through `read_vectored`
+/// with one buffer, sizes that are 2 mod 4 with two buffers of half the size each — each of
+/// which may fit into what is left of a body although both together do not —, the rest through `read`)
+pub fn read_some<R: std::io::Read + ?Sized>(reader: &mut R, buf: &mut [u8], want: usize) -> std::io::Result<usize> {
+    if want % 2 == 1 {
+        reader.read_vectored(&mut [std::io::IoSliceMut::new(&mut buf[..want])])
+    } else if want % 4 == 2 && want >= 2 {
+        let (a, b) = buf[..want].split_at_mut(want / 2);
+        reader.read_vectored(&mut [std::io::IoSliceMut::new(a), std::io::IoSliceMut::new(b)])
+    } else {
+        reader.read(&mut buf[..want])
+    }
+}
+
+/// `Action::buf` value that stands for "read the whole body with one `read_to_end`"
+pub const READ_TO_END: usize = 1_000_000_007;
+
 /// `Action::delay_ms` values from here on mean: wait `delay_ms - PRE_DELAY` ms *before* the first
 /// `as_reader()` (smaller values: wait before finishing)
 pub const PRE_DELAY: u64 = 1_000_000;
@@ -349,11 +367,18 @@ fn app_thread(server: std::sync::Arc<Server>, script: Vec<Action>, tx: mpsc::Sen
                     let _ = reader.read(&mut []);
                 }
                 let mut got = 0usize;
-                let mut buf = vec![0u8; std::cmp::max(1, a.buf)];
+                if a.buf == READ_TO_END {
+                    // one `read_to_end` instead of a loop of reads
+                    let mut all = vec![];
+                    let r = reader.read_to_end(&mut all);
+                    let _ = tx2.send(Ev::Data(all));
+                    end = if r.is_ok() { "eof" } else { "err" };
+                    got = a.read_total;
+                }
+                let mut buf = vec![0u8; if a.buf == READ_TO_END { 1 } else { std::cmp::max(1, a.buf) }];
                 while got < a.read_total {
                     let want = std::cmp::min(buf.len(), a.read_total - got);
-                    // odd request sizes go through `read_vectored` with one buffer: the same read
-                    match if want % 2 == 1 { reader.read_vectored(&mut [std::io::IoSliceMut::new(&mut buf[..want])]) } else { reader.read(&mut buf[..want]) } {
+                    match read_some(reader, &mut buf, want) {
                         Ok(0) => {
                             end = "eof";
                             break;
